@@ -412,6 +412,21 @@ example : validateCost (0 : Int) "" true 133 { ctx := none, resolver := 1, multi
 example : validateCost (0 : Int) "" true 132 { ctx := none, resolver := 1, multiplier := 0 } exDoc =
     { verdict := .exceeds 133 132, actual := some 133 } := by decide +kernel
 
+/-- `{ o: n(r:1,m:10) { a(2) }  o: n(r:1,m:10) { b(3) } }`: the same response key twice in one selection
+    set. Both are field selections: 1 + 10·2 + 1 + 10·3 = 52. -/
+def repeatedKeyDoc : Doc Int :=
+  { ops := [{ name := none, node := .other [.other [
+      .field (.fn fun _ => { ctx := none, resolver := 1, multiplier := 10 }) [.other [
+        .field (.fn fun _ => { ctx := none, resolver := 2, multiplier := 0 }) []]],
+      .field (.fn fun _ => { ctx := none, resolver := 1, multiplier := 10 }) [.other [
+        .field (.fn fun _ => { ctx := none, resolver := 3, multiplier := 0 }) []]]]] }]
+    frags := [] }
+
+example : Spec.refCost (0 : Int) "" { ctx := none, resolver := 1, multiplier := 0 } repeatedKeyDoc = some 52 := by
+  decide +kernel
+example : validateCost (0 : Int) "" true 51 { ctx := none, resolver := 1, multiplier := 0 } repeatedKeyDoc =
+    { verdict := .exceeds 52 51, actual := some 52 } := by decide +kernel
+
 /-- F-14a's document: root ×2^40 (cost 1) { kids ×2^40 (cost 0) { free (cost 0) } } — true cost 1. -/
 def f14aDoc : Doc Int :=
   { ops := [{ name := none, node := .other [.other [
